@@ -74,15 +74,118 @@ fn delta_text(d: &ReplicationDelta) -> String {
 fn content(d: &ReplicationDelta) -> String {
     format!("{}|{}|{}", d.key, obs(&d.value), d.source_replica.0)
 }
+/// Notation style of a printed term.  `Plain` is the readable form (`[a; b]`, `(a, b)`,
+/// `Some x`); `Explicit` writes every implicit type argument (`@cons T a ..`, `@pair A B a b`,
+/// `@Some T x`), so that Coq creates no existential variables while elaborating a case: their
+/// cost grows with the number of `let`-bound names in scope and dominated the Coq side.
+#[derive(Clone, Copy, PartialEq, Eq)]
+enum Style {
+    Plain,
+    Explicit,
+}
+const T_KV: &str = "(prod string rvalue)";
+const T_KVL: &str = "(list (prod string rvalue))";
+impl Style {
+    fn list(self, ty: &str, items: &[String]) -> String {
+        match self {
+            Style::Plain => format!("[{}]", items.join("; ")),
+            Style::Explicit => {
+                let mut o = String::new();
+                for it in items {
+                    o.push_str(&format!("(@cons {} {} ", ty, it));
+                }
+                o.push_str(&format!("(@nil {})", ty));
+                for _ in items {
+                    o.push(')');
+                }
+                o
+            }
+        }
+    }
+    fn pair(self, ta: &str, tb: &str, a: &str, b: &str) -> String {
+        match self {
+            Style::Plain => format!("({}, {})", a, b),
+            Style::Explicit => format!("(@pair {} {} {} {})", ta, tb, a, b),
+        }
+    }
+    fn some(self, ty: &str, x: &str) -> String {
+        match self {
+            Style::Plain => format!("(Some {})", x),
+            Style::Explicit => format!("(@Some {} {})", ty, x),
+        }
+    }
+    fn none(self, ty: &str) -> String {
+        match self {
+            Style::Plain => "None".to_string(),
+            Style::Explicit => format!("(@None {})", ty),
+        }
+    }
+    fn opt(self, ty: &str, x: &Option<String>) -> String {
+        match x {
+            Some(x) => self.some(ty, x),
+            None => self.none(ty),
+        }
+    }
+}
+/// `vharness::rv::lww_term` in either style
+fn lww_x(v: &Value, st: Style) -> String {
+    let val = match &v["value"] {
+        Value::Null => None,
+        Value::Array(a) => {
+            let b: Vec<u8> = a.iter().map(|x| x.as_u64().unwrap() as u8).collect();
+            Some(chex(&b))
+        }
+        _ => panic!("lww value"),
+    };
+    format!(
+        "(L {} {} {} {})",
+        st.opt("string", &val),
+        v["timestamp"]["time"].as_u64().unwrap(),
+        v["timestamp"]["replica_id"].as_u64().unwrap(),
+        cbool(v["tombstone"].as_bool().unwrap())
+    )
+}
+/// `vharness::rv::rv_term(v, false)` in either style (in the plain style the text is identical,
+/// which `Intern::v` asserts); shapes that do not occur here fall back to rv_term
+fn value_x(v: &ReplicatedValue, st: Style) -> String {
+    let j = serde_json::to_value(v).unwrap();
+    let (k, c) = j["crdt"].as_object().unwrap().iter().next().unwrap();
+    let crdt = match k.as_str() {
+        "Lww" => format!("(cl {})", lww_x(c, st)),
+        "Hash" => {
+            let m: BTreeMap<&String, &Value> = c.as_object().unwrap().iter().collect();
+            let items: Vec<String> = m.iter().map(|(f, l)| st.pair("string", "lww", &chex(f.as_bytes()), &lww_x(l, st))).collect();
+            format!("(ch {})", st.list("(prod string lww)", &items))
+        }
+        _ => return rv_term(v, false),
+    };
+    if !j["vector_clock"].is_null() {
+        return rv_term(v, false);
+    }
+    format!(
+        "(V {} {} {} {} {} {})",
+        crdt,
+        st.none("(list (prod N N))"),
+        st.opt("N", &v.expiry_ms.map(|e| e.to_string())),
+        v.timestamp.time,
+        v.timestamp.replica_id.0,
+        st.opt("N", &v.replication_factor.map(|e| e.to_string()))
+    )
+}
+
 /// How deltas and values are printed: in full (`Plain`, readable, used for reports and the
 /// canonical text) or through per-case `let` bindings (`Intern`: every distinct literal, value
-/// and delta is elaborated by Coq once per case; parsing literals dominates the Coq side).
+/// and delta is elaborated by Coq once per case, in the explicit style).
 trait Pr {
+    fn st(&self) -> Style;
     fn d(&mut self, d: &ReplicationDelta) -> String;
     fn v(&mut self, v: &ReplicatedValue) -> String;
 }
 struct Plain;
 impl Pr for Plain {
+    fn st(&self) -> Style {
+        Style::Plain
+    }
     fn d(&mut self, d: &ReplicationDelta) -> String {
         delta_term(d)
     }
@@ -90,12 +193,30 @@ impl Pr for Plain {
         rv_term(v, false)
     }
 }
+/// first pass: which values are referred to on their own (not only inside a delta)
+#[derive(Default)]
+struct Collect {
+    standalone: BTreeSet<String>,
+}
+impl Pr for Collect {
+    fn st(&self) -> Style {
+        Style::Plain
+    }
+    fn d(&mut self, _d: &ReplicationDelta) -> String {
+        String::new()
+    }
+    fn v(&mut self, v: &ReplicatedValue) -> String {
+        self.standalone.insert(rv_term(v, false));
+        String::new()
+    }
+}
 #[derive(Default)]
 struct Intern {
     lit: HashMap<String, String>,
-    lit_defs: Vec<(String, String)>,
     names: HashMap<String, String>,
     defs: Vec<(String, String)>,
+    /// values that get a binding of their own; the others are written inside their delta
+    standalone: BTreeSet<String>,
 }
 impl Intern {
     /// replace every string literal and every number of `text` by a let-bound name
@@ -139,9 +260,10 @@ impl Intern {
         if let Some(n) = self.lit.get(lit) {
             return n.clone();
         }
-        let n = format!("{}{}", pre, self.lit_defs.len());
+        // one list of bindings in order of first use
+        let n = format!("{}{}", pre, self.defs.len());
         self.lit.insert(lit.to_string(), n.clone());
-        self.lit_defs.push((n.clone(), lit.to_string()));
+        self.defs.push((n.clone(), lit.to_string()));
         n
     }
     fn def(&mut self, plain: String, pre: &str, body: String) -> String {
@@ -152,9 +274,6 @@ impl Intern {
     }
     fn wrap(&self, body: &str) -> String {
         let mut o = String::from("(");
-        for (n, l) in &self.lit_defs {
-            o.push_str(&format!("let {} := {} in ", n, l));
-        }
         for (n, b) in &self.defs {
             o.push_str(&format!("let {} := {} in ", n, b));
         }
@@ -164,12 +283,16 @@ impl Intern {
     }
 }
 impl Pr for Intern {
+    fn st(&self) -> Style {
+        Style::Explicit
+    }
     fn v(&mut self, v: &ReplicatedValue) -> String {
         let plain = rv_term(v, false);
         if let Some(n) = self.names.get(&plain) {
             return n.clone();
         }
-        let body = self.lits(&plain);
+        assert_eq!(value_x(v, Style::Plain), plain, "harness: value_x disagrees with rv_term");
+        let body = self.lits(&value_x(v, Style::Explicit));
         self.def(plain, "v", body)
     }
     fn d(&mut self, d: &ReplicationDelta) -> String {
@@ -177,18 +300,25 @@ impl Pr for Intern {
         if let Some(n) = self.names.get(&plain) {
             return n.clone();
         }
-        let vn = self.v(&d.value);
+        let vplain = rv_term(&d.value, false);
+        let vn = if self.standalone.contains(&vplain) || self.names.contains_key(&vplain) {
+            self.v(&d.value)
+        } else {
+            assert_eq!(value_x(&d.value, Style::Plain), vplain, "harness: value_x disagrees with rv_term");
+            self.lits(&value_x(&d.value, Style::Explicit))
+        };
         let body = format!("D {} {} {}", self.lits(&chex(d.key.as_bytes())), vn, self.lits(&d.source_replica.0.to_string()));
         self.def(plain, "d", body)
     }
 }
 fn kv_term(s: &KV, p: &mut dyn Pr) -> String {
-    let v: Vec<String> = s.iter().map(|(k, v)| format!("({}, {})", chex(k.as_bytes()), p.v(v))).collect();
-    format!("[{}]", v.join("; "))
+    let st = p.st();
+    let v: Vec<String> = s.iter().map(|(k, v)| st.pair("string", "rvalue", &chex(k.as_bytes()), &p.v(v))).collect();
+    st.list(T_KV, &v)
 }
 fn deltas_term<'a>(ds: impl IntoIterator<Item = &'a ReplicationDelta>, p: &mut dyn Pr) -> String {
     let v: Vec<String> = ds.into_iter().map(|d| p.d(d)).collect();
-    format!("[{}]", v.join("; "))
+    p.st().list("delta", &v)
 }
 fn obs_kv(s: &KV) -> BTreeMap<String, String> {
     s.iter().map(|(k, v)| (k.clone(), obs(v))).collect()
@@ -617,7 +747,7 @@ impl Layout {
                 }
             }
         }
-        format!("[{}]", v.join("; "))
+        p.st().list("(prod name (sobj obj))", &v)
     }
     fn visible(&self, s: &SegSpec) -> bool {
         match &self.ck {
@@ -728,7 +858,7 @@ fn bump(out: &mut Out, k: &str, n: u64) {
     *out.dist.entry(k.to_string()).or_insert(0) += n;
 }
 
-async fn run_case(seed: u64, i: u64, verbose: bool, out: &mut Out) {
+async fn run_case(seed: u64, i: u64, verbose: bool, plain: bool, out: &mut Out) {
     let mut rng = case_rng(seed, i);
     let lay = gen_layout(&mut rng);
     let manifest = lay.manifest();
@@ -752,15 +882,23 @@ async fn run_case(seed: u64, i: u64, verbose: bool, out: &mut Out) {
     let wal_deltas: Vec<ReplicationDelta> = wal_entries.iter().map(|e| e.1.clone()).collect();
 
     // ---- case text (layout part)
-    let segs_t = clist(lay.segs.iter(), |s| format!("SG {} {} {} {} {} {}", s.id, s.id, s.info.record_count, s.info.size_bytes, s.info.min_timestamp, s.info.max_timestamp));
-    let ck_t = copt(&lay.ck, |c| format!("(CK {} {} {} {})", c.ts, c.ts, c.state.len(), c.last));
+    let seg_items: Vec<String> = lay.segs.iter().map(|s| format!("(SG {} {} {} {} {} {})", s.id, s.id, s.info.record_count, s.info.size_bytes, s.info.min_timestamp, s.info.max_timestamp)).collect();
+    let ck_item: Option<String> = lay.ck.as_ref().map(|c| format!("(CK {} {} {} {})", c.ts, c.ts, c.state.len(), c.last));
     let wal_term = |p: &mut dyn Pr| -> String {
-        let v: Vec<String> = wal_entries.iter().map(|(ts, d)| format!("({}, {})", ts, p.d(d))).collect();
-        format!("[{}]", v.join("; "))
+        let st = p.st();
+        let v: Vec<String> = wal_entries.iter().map(|(ts, d)| st.pair("N", "delta", &ts.to_string(), &p.d(d))).collect();
+        st.list("(prod N delta)", &v)
     };
+    // K11 version rid segs ck next has_manifest objs wal
+    let layout_term = |p: &mut dyn Pr| -> String {
+        let st = p.st();
+        format!("{} 1 {} {} {} {} {} {}", lay.version, st.list("seginfo", &seg_items), st.opt("ckinfo", &ck_item), manifest.next_segment_id, cbool(lay.has_manifest), lay.objects_term(p), wal_term(p))
+    };
+    let segs_t = Style::Plain.list("seginfo", &seg_items);
+    let ck_t = Style::Plain.opt("ckinfo", &ck_item);
     let objs_t = lay.objects_term(&mut Plain);
     let wal_t = wal_term(&mut Plain);
-    let layout_t = format!("{} 1 {} {} {} {} {} {}", lay.version, segs_t, ck_t, manifest.next_segment_id, cbool(lay.has_manifest), objs_t, wal_t);
+    let layout_t = layout_term(&mut Plain);
 
     let listed = lay.has_manifest;
     let high_water: u64 = if listed { manifest.segments.iter().map(|s| s.max_timestamp).max().unwrap_or(0) } else { 0 };
@@ -1106,19 +1244,22 @@ async fn run_case(seed: u64, i: u64, verbose: bool, out: &mut Out) {
 
     // ---- the Coq case
     let okv = |s: &Option<KV>, p: &mut dyn Pr| -> String {
-        match s {
-            Some(s) => format!("(Some {})", kv_term(s, p)),
-            None => "None".to_string(),
-        }
+        let x = s.as_ref().map(|s| kv_term(s, p));
+        p.st().opt(T_KVL, &x)
     };
     let outputs = |p: &mut dyn Pr| -> [String; 4] {
+        let st = p.st();
+        let t_ck = format!("(option {})", T_KVL);
         let k_rec_t = match &rec {
-            Ok(r) => format!("(Some ({}, {}))", okv(&r.ck_kv(), p), deltas_term(r.deltas.iter(), p)),
-            Err(_) => "None".to_string(),
+            Ok(r) => {
+                let pr = st.pair(&t_ck, "(list delta)", &okv(&r.ck_kv(), p), &deltas_term(r.deltas.iter(), p));
+                st.some(&format!("(prod {} (list delta))", t_ck), &pr)
+            }
+            Err(_) => st.none(&format!("(prod {} (list delta))", t_ck)),
         };
         let k_recwal_t = match &recwal {
-            Ok(r) => format!("(Some {})", deltas_term(r.deltas.iter(), p)),
-            Err(_) => "None".to_string(),
+            Ok(r) => st.some("(list delta)", &deltas_term(r.deltas.iter(), p)),
+            Err(_) => st.none("(list delta)"),
         };
         [k_rec_t, k_recwal_t, okv(&k_state, p), okv(&k_prod, p)]
     };
@@ -1126,11 +1267,13 @@ async fn run_case(seed: u64, i: u64, verbose: bool, out: &mut Out) {
     // the term written to the case file: the same case with every distinct literal, value and
     // delta bound once by a `let`
     let term = {
-        let mut it = Intern::default();
-        let objs_i = lay.objects_term(&mut it);
-        let wal_i = wal_term(&mut it);
+        let mut pass1 = Collect::default();
+        let _ = layout_term(&mut pass1);
+        let _ = outputs(&mut pass1);
+        let mut it = Intern { standalone: pass1.standalone, ..Intern::default() };
+        let layout_i = layout_term(&mut it);
         let [a, b, c, d] = outputs(&mut it);
-        let skeleton = format!("K11 {} 1 {} {} {} {} {} {} {} {} {} {}", lay.version, segs_t, ck_t, manifest.next_segment_id, cbool(lay.has_manifest), objs_i, wal_i, a, b, c, d);
+        let skeleton = format!("K11 {} {} {} {} {}", layout_i, a, b, c, d);
         let body = it.lits(&skeleton);
         it.wrap(&body)
     };
@@ -1142,7 +1285,8 @@ async fn run_case(seed: u64, i: u64, verbose: bool, out: &mut Out) {
     if verbose {
         println!("Coq case as written to the case file (let-compressed):\n{}", term);
     }
-    out.case(i, term, nontrivial, &layout_t);
+    // `--plain 1` writes the readable term instead (same case; about three times slower in Coq)
+    out.case(i, if plain { plain_term } else { term }, nontrivial, &layout_t);
     out.sample(json!({"case": i, "tags": lay.tags(), "updates": lay.updates.len(), "segments": lay.segs.iter().map(|s| s.id).collect::<Vec<_>>(), "checkpoint": lay.ck.is_some(), "wal_entries": wal_entries.len(), "high_water": high_water}));
     bump(out, "updates-total", lay.updates.len() as u64);
     if verbose {
@@ -1154,6 +1298,7 @@ fn main() {
     let a: Vec<String> = std::env::args().collect();
     let args = &Args::parse(&a[1..]);
     let verbose = args.only.is_some();
+    let plain = args.get("plain", 0) != 0;
     let mut out = Out::new(&args.out, "C11", args.shards, HEADER);
     out.nontrivial_rule = "a case = 6-31 updates (SET with/without expiry, DEL, HSET, HDEL; one kind per key over keys k/j/m/h/g) issued by 3-4 real ShardReplicaStates with independent Lamport clocks (0, small, hundreds, far ahead; either one replica per key or any replica any key with occasional cross-delivery; 10% of the deltas occur twice), partitioned at random (15% into two parts) into a checkpoint (50%), 1-5 segments with increasing ids and a WAL written by the real WalRotator (several files); 35% of the cases put a slow replica mostly into the WAL and a fast one mostly into the segments, 25% are production-like (everything in the WAL, a prefix flushed in order to checkpoint and segments, half of them with synchronised clocks); variants: no manifest, missing/torn segment or checkpoint object, min_timestamp ties, listed segments with id <= last_segment_id; non-trivial = recovery returned Ok and at least two of checkpoint/segments/WAL are non-empty; distinct by layout text".into();
     if !verbose {
@@ -1162,7 +1307,7 @@ fn main() {
     let rt = tokio::runtime::Builder::new_current_thread().enable_all().build().unwrap();
     let range: Vec<u64> = match args.only { Some(i) => vec![i], None => (0..args.n).collect() };
     for i in range {
-        let r = catch_unwind(AssertUnwindSafe(|| rt.block_on(run_case(args.seed, i, verbose, &mut out))));
+        let r = catch_unwind(AssertUnwindSafe(|| rt.block_on(run_case(args.seed, i, verbose, plain, &mut out))));
         out.impl_checks += 1;
         if r.is_err() {
             out.count(&format!("violation:{}", V_PANIC));
